@@ -67,6 +67,8 @@ def gen_case(r):
             continue
         used.add(n)
         c["gots"].append((n, r.choice(["push", "mov"])))
+    # some pointer slots go through a --defsym alias (`d_k_j = t_n + add`): still an address that must be relocated
+    c["alias"] = sorted({(k, j) for k, s in enumerate(c["secs"]) for j in range(len(s["items"])) if r.chance(1, 4)})
     return c
 
 
@@ -123,11 +125,16 @@ def render(c):
         for j, (pad, n, add) in enumerate(s["items"]):
             if pad:
                 a.append("    .byte " + ",".join(str(0xA0 + i) for i in range(pad)))
-            a.append(f"p_{k}_{j}: .quad t_{n}+{add}" if add else f"p_{k}_{j}: .quad t_{n}")
+            if (k, j) in set(map(tuple, c.get("alias", []))):
+                a.append(f"p_{k}_{j}: .quad d_{k}_{j}")
+            else:
+                a.append(f"p_{k}_{j}: .quad t_{n}+{add}" if add else f"p_{k}_{j}: .quad t_{n}")
     fl = "a" if c["tsec"].startswith(".rodata") else "aw"
     a.append(f'    .section {c["tsec"]},"{fl}",@progbits')
     for n in range(NT):
         a.append(f"t_{n}: .byte {c['tbytes'][n]}")
+        if c.get("alias"):
+            a.append(f"    .globl ta_{n}\n    .hidden ta_{n}\n    .set ta_{n}, t_{n}")
     p = []
     for k, s in enumerate(c["secs"]):
         if s["pre"]:
@@ -152,6 +159,9 @@ def link_args(c, out, objs):
         args += ["--no-relax"]
     if c["gc"]:
         args += [c["gc"]]
+    for (k, j) in c.get("alias", []):
+        pad, n, add = c["secs"][k]["items"][j]
+        args += [f"--defsym=d_{k}_{j}=ta_{n}+{add}" if add else f"--defsym=d_{k}_{j}=ta_{n}"]
     return args + ["-o", out] + objs
 
 
@@ -312,6 +322,8 @@ def run(ctx):
         rc, err, out = outs["wild"]
         replay = {"case": c, "link_line": " ".join(link_args(c, "OUT", ["pads.o", "main.o"] if pads_s.strip() else ["main.o"])), "main.s": main_s, "pads.s": pads_s}
         grc, gerr, gout = outs["ld"]
+        if rc != 0 and grc != 0:
+            ctx.count("gen", "both-linkers-reject")
         if rc != 0:
             ci = canon_err(err)
             if grc == 0:
